@@ -6,7 +6,7 @@ from __future__ import annotations
 import ast
 import re
 
-from ..astutil import call_attr, call_name, calls_in, unparse, walk_local
+from ..astutil import call_attr, call_name, calls_in, parent_map, unparse, walk_local
 from ..cfg import CFG
 from ..dataflow import resolved_text
 from ..report import Finding, Report
@@ -279,6 +279,37 @@ def check(idx: Index, rep: Report, tier: str) -> str:
             r.ok(fi.fq, None)
     if n_conv < 10:
         raise AnalysisError(f"only {n_conv} converters found in {CO}")
+    # the driver hands every operation the builder of the block it is in
+    from ..dataflow import reaching_defs
+
+    drv = idx.func(CV, "_convert_func")
+    dcfg = CFG(drv.node)
+    ccalls = [c for c in calls_in(drv.node) if unparse(c.func) == "convert_op" and len(c.args) >= 2]
+    if not ccalls:
+        raise AnalysisError(f"{drv.fq}: convert_op call not found")
+    pm_ = parent_map(drv.node)
+    for c in ccalls:
+        # enclosing loop over the blocks
+        blk = None
+        x = c
+        while id(x) in pm_:
+            x = pm_[id(x)]
+            if isinstance(x, ast.For) and isinstance(x.target, ast.Name) and re.fullmatch(r"\w+\.body\.blocks|\w+\.regions\[0\]\.blocks", unparse(x.iter)):
+                blk = x.target.id
+                break
+        b = c.args[1]
+        inst = f"{drv.fq}:convert_op@{c.lineno}"
+        if blk is None or not isinstance(b, ast.Name):
+            raise AnalysisError(f"{drv.fq}: `{unparse(c)}` not inside the loop over the blocks / builder not a local")
+        defs = reaching_defs(dcfg, b.id, dcfg.node_of(c))
+        vals = {unparse(v) if v is not None else "<param>" for _, v in defs}
+        if vals == {f"ir.IRBuilder(block_map[{blk}])"}:
+            r.ok(inst, f"{CV}:{c.lineno} emitted with the builder of its own block")
+        elif all(re.fullmatch(r"ir\.IRBuilder\(.*\)", v_) for v_ in vals):
+            other = sorted(v_ for v_ in vals if v_ != f"ir.IRBuilder(block_map[{blk}])")
+            r.fail(inst, Finding("C23.R4", drv.fq, f"emitted-in-other-block:{b.id}", f"`{unparse(c)}` emits the operation with `{other[0]}`, a builder of another block than the one the operation is in: an alloca moved to the entry block yields one slot for all loop iterations, and its size operand may not dominate it", f"{CV}:{c.lineno}"))
+        else:
+            raise AnalysisError(f"{drv.fq}: builder `{b.id}` of `{unparse(c)}` has definitions {sorted(vals)}")
 
     rep.run(check_structure, idx, rep)
     return (
